@@ -95,4 +95,42 @@ def deliveredX : OutX → Bytes
   | .wrote _ w => w
   | .yielded _ ls => ls.flatten
 
+/-! ### transient faults of the underlying stream
+
+  `fp.read()` may raise something that is not the size limit (socket.timeout, ConnectionError, …) in the
+  middle of an operation; `SizedReader.read` lets it propagate (`else: raise`), the chunks collected by that
+  call are lost, `bytes_read` has counted every chunk that arrived (it is updated per chunk, not at the end
+  of the loop).  The application may catch the exception and go on reading.  In the state machine this is the
+  event `failAt` (same statements, same state when the exception leaves `read`); what differs is that the
+  fault is transient: after the operation that it aborted, the next fault of the plan is armed (or none).
+  `plan` = countdowns: the stream raises at the k-th next `fp.read` call, then at the k'-th after that, ….
+  (An operation that fails for the `maxbytes` limit at the very moment a countdown has reached 0 without
+  having fired also consumes that fault; the harness compares only histories in which the limit does not
+  bite.) -/
+
+def isErrX : OutX → Bool
+  | .base .err413 => true
+  | .wrote .err413 _ => true
+  | .yielded .err413 _ => true
+  | _ => false
+
+def armNext (s : St) (plan : List Nat) : St × List Nat :=
+  match plan with
+  | [] => ({ s with failAt := none }, [])
+  | k :: rest => ({ s with failAt := some k }, rest)
+
+/-- history over a stream with transient faults; a result for which `isErrX` holds while the fault is due
+    is the propagated stream exception -/
+def runF (cfg : Cfg) : St → List Nat → List OpX → List OutX × St
+  | s, _, [] => ([], s)
+  | s, plan, op :: ops =>
+    let (o, s1) := stepX cfg s op
+    let (s2, plan') := if isErrX o && s1.failAt == some 0 then armNext s1 plan else (s1, plan)
+    let (os, s3) := runF cfg s2 plan' ops
+    (o :: os, s3)
+
+/-- fresh reader over a stream with the fault plan armed -/
+def initF (src : Bytes) (frag : List Nat) (plan : List Nat) : St × List Nat :=
+  armNext (init src frag none) plan
+
 end CpModel.Reader
